@@ -181,6 +181,52 @@ def special_character_cases(L, G, rng, n_random):
     return cases
 
 
+def writer_history_part(ck, L, G, n_docs):
+    """the writer's output for a document is a function of the document: writes in one process, failing writes in between"""
+    rng = ck.rng
+    root = L.S["root"][1]
+    docs = [c03.W_INHERITED["tree"] and c03.T_("NeuroMLDocument", id=c03.s_("doc0"),
+                                              iaf_cells={"l": [c03.T_("IafCell", id=c03.s_("iaf"), **c03.IAF)]})]
+    types = [c for c in L.T.order if G.steps_to_document(c)]
+    # documents that hold nested components (a failing child export needs a child with children)
+    for c in ["Cell", "Network", "IonChannel"] + [rng.choice(types) for _ in range(n_docs)]:
+        t, _ = G.embed(G.tree(c, 2, rich=True), G.steps_to_document(c))
+        docs.append(t)
+    ct = rng.choice(types)
+    comps = [{"tree": G.tree("IafCell", 0), "tag": "probe_IafCell"}, {"tree": G.tree(ct, 2, rich=True), "tag": "probe_" + ct}]
+    r = ck.impl("c02_impl.py", {"mode": "writehistory", "docs": docs, "components": comps}, timeout=1200)
+    if "err" in r:
+        ck.oblige("writer-history:runs", False, r["err"], kind="harness")
+        return
+    nfail = 0
+    calls = []
+    for i, op in enumerate(r["ops"]):
+        calls.append("%s(%d)%s" % (op["op"], op["index"], "" if op["raised"] is None else " -> " + op["raised"]))
+        ck.tally("writer-history:" + op["op"].split(":")[0])
+        if op["op"].startswith("failing"):
+            nfail += op["raised"] is not None
+            continue
+        fresh = (r["fresh_docs"] if op["op"] == "write" else r["fresh_comps"])[op["index"]]
+        ck.count(1, nontrivial_key=("writer-history", i, json.dumps((docs if op["op"] == "write" else comps)[op["index"]], sort_keys=True)[:2000]))
+        inp = {"calls_in_one_process": calls[:], "document" if op["op"] == "write" else "component":
+               (docs if op["op"] == "write" else comps)[op["index"]], "writer_history": {"docs": docs, "components": comps}}
+        if op["raised"] is not None:
+            ck.witness("C02:writer-raises-after-history", "%s of a conforming tree raises %s as call #%d of one process" % (
+                op["op"], op["raised"], i + 1), input=inp, observed=op["raised"])
+        elif "text" not in fresh:
+            ck.oblige("writer-history:fresh-process-reference", False, str(fresh), kind="harness")
+        elif op["text"] != fresh["text"] or not op["lx"]["wellformed"] or not (op["lx"]["valid"] or "GateKS" in op["text"] or "gateKS" in op["text"]):
+            k = next((j for j, (a, b) in enumerate(zip(op["text"], fresh["text"])) if a != b), min(len(op["text"]), len(fresh["text"])))
+            ck.witness("C02:writer-output-depends-on-history",
+                       "call #%d of one process, %s of a conforming %s, produces other bytes than a fresh process (first difference at "
+                       "offset %d: %r vs %r); well-formed: %s, libxml2: %s; calls before it: %s" % (
+                           i + 1, op["op"], "document" if op["op"] == "write" else "component", k, op["text"][k:k + 60],
+                           fresh["text"][k:k + 60], op["lx"]["wellformed"], op["lx"]["valid"], "; ".join(calls[:-1])),
+                       input=inp, expected=fresh["text"][:300], observed=op["text"][:300])
+    ck.extra["writer_history_failing_writes_that_raised"] = nfail
+    ck.oblige("writer-history:failure-injection-effective", nfail >= 3, "only %d of the injected failures raised" % nfail, kind="harness")
+
+
 def history_part(ck, L, G, order, n):
     """validate() is a function of the tree: the same objects validated twice, violated, restored"""
     rng = ck.rng
@@ -439,6 +485,7 @@ def run(ck):
     xsd_correspondence(ck, xcases)
     conforms_correspondence(ck, ccases)
     history_part(ck, L, G, order, ck.n(60, 800))
+    writer_history_part(ck, L, G, ck.n(2, 12))
     # the model of validate on the conforming trees too
     c03.correspondence(ck, cases[:ck.n(200, 1500)], [dict(r, nonrec=r.get("nonrec", {"raised": None, "msgs": []})) for r in res[:ck.n(200, 1500)]],
                        label="Cases_C02_validate")
@@ -449,6 +496,18 @@ def replay(ck, data):
     tab = bindings.translate(ck)
     T = bindings.Tables(tab)
     order = {c: T.field_order(c) for c in T.order}
+    if "writer_history" in inp:
+        r = ck.impl("c02_impl.py", dict(inp["writer_history"], mode="writehistory"))
+        rows = []
+        for i, op in enumerate(r.get("ops", [])):
+            if op["op"].startswith("failing"):
+                rows.append({"call": i + 1, "op": op["op"], "raised": op["raised"]})
+                continue
+            fresh = (r["fresh_docs"] if op["op"] == "write" else r["fresh_comps"])[op["index"]]
+            rows.append({"call": i + 1, "op": "%s(%d)" % (op["op"], op["index"]), "raised": op["raised"],
+                         "same bytes as a fresh process": op.get("text") == fresh.get("text"), "well-formed": op.get("lx", {}).get("wellformed")})
+        print(json.dumps({"stored": {k: data.get(k) for k in ("key", "what")}, "now": rows, "error": r.get("err")}, indent=1)[:6000])
+        return 1 if any(x.get("same bytes as a fresh process") is False for x in rows) else 0
     if data.get("key") == "C02:validate-depends-on-history":
         r = ck.impl("c02_impl.py", {"mode": "history", "order": order, "cases": [inp]})["results"][0]
         steps = [{"step": s["label"], "validate(recursive=True)": s["rec"].get("raised"), "validate()": s["nonrec"].get("raised"),
